@@ -2,7 +2,7 @@
 //! coherence of is_match / find / captures (C09), validity of every reported offset (C05), group metadata (C16).
 use crate::corpus;
 use crate::{Budget, Family};
-use fancy_regex::Regex;
+use fancy_regex::{Expr, Regex};
 use serde_json::{json, Value};
 use std::panic::{catch_unwind, AssertUnwindSafe};
 
@@ -26,6 +26,18 @@ fn check_inner(pattern: &str, text: &str) -> Option<String> {
     };
     let n = re.captures_len();
     let names: Vec<_> = re.capture_names().collect();
+    // C16: captures_len == 1 + number of capturing groups (counted on the parsed tree), names at their group's index
+    if let Ok(tree) = Expr::parse_tree(pattern) {
+        let g = count_groups(&tree.expr);
+        if n != g + 1 {
+            return Some(format!("captures_len {} but the pattern has {} capturing groups", n, g));
+        }
+    }
+    for (name, idx) in expected_names(pattern) {
+        if names.get(idx).cloned().flatten() != Some(name.as_str()) {
+            return Some(format!("capture_names()[{}] should be {:?}, names are {:?}", idx, name, names));
+        }
+    }
     if names.len() != n {
         return Some(format!("capture_names has {} entries, captures_len {}", names.len(), n));
     }
@@ -98,6 +110,52 @@ fn check_inner(pattern: &str, text: &str) -> Option<String> {
     let _ = re.try_replacen(text, 0, "[$0]");
     let _ = re.try_replacen(text, 0, fancy_regex::NoExpand("x"));
     None
+}
+
+fn count_groups(e: &Expr) -> usize {
+    match e {
+        Expr::Concat(v) | Expr::Alt(v) => v.iter().map(count_groups).sum(),
+        Expr::Group(c) => 1 + count_groups(c),
+        Expr::LookAround(c, _) | Expr::AtomicGroup(c) => count_groups(c),
+        Expr::Repeat { child, .. } => count_groups(child),
+        Expr::Conditional { condition, true_branch, false_branch } => count_groups(condition) + count_groups(true_branch) + count_groups(false_branch),
+        _ => 0,
+    }
+}
+
+/// (name, index) of every named group, by opening-parenthesis order, from the pattern text (corpus patterns have no
+/// escaped parentheses and no parentheses inside classes)
+fn expected_names(pattern: &str) -> Vec<(String, usize)> {
+    let b = pattern.as_bytes();
+    let mut out = vec![];
+    let mut idx = 0usize;
+    let mut i = 0;
+    while i < b.len() {
+        if b[i] == b'\\' {
+            i += 2;
+            continue;
+        }
+        if b[i] == b'(' {
+            let rest = &pattern[i + 1..];
+            let named = if rest.starts_with("?<") && !rest.starts_with("?<=") && !rest.starts_with("?<!") {
+                Some(2)
+            } else if rest.starts_with("?P<") {
+                Some(3)
+            } else {
+                None
+            };
+            if let Some(off) = named {
+                idx += 1;
+                if let Some(end) = rest[off..].find('>') {
+                    out.push((rest[off..off + end].to_string(), idx));
+                }
+            } else if !rest.starts_with('?') {
+                idx += 1;
+            }
+        }
+        i += 1;
+    }
+    out
 }
 
 fn group_patterns() -> Vec<&'static str> {
